@@ -120,8 +120,10 @@ def Conn.cleanEarlyEnd (data : Text) (k : Kind) (c : Conn) (range : Option Nat) 
     if (code = httpOK ∨ code = httpPartial) ∧ q < content.length then some (code, q) else none
 
 /-- the reader can tell that the stream ended early: the request asked for offset `p`, the answer was
-200 (the file from offset 0) and fewer than `p` bytes arrived.  (Nothing of the kind exists for 206
-or for a request without Range: the reader has no length to compare with.) -/
+200 (the file from offset 0) and fewer than `p` bytes arrived.  (Nothing of the kind exists for 206,
+for a request without Range, or for a 200 body that reaches offset `p`: the reader has no length to
+compare with — `r.total` records the first Content-Length but is never read, Content-Range is not
+looked at.) -/
 def evidentEnd (range : Option Nat) (code q : Nat) : Bool :=
   code == httpOK && match range with
     | some p => decide (q < p)
